@@ -22,7 +22,7 @@ void __real__exit (int) __attribute__ ((noreturn));
 #define ALPHA "a./#"
 #define LONGLEN 1100
 
-static object_t *T, *U;
+static object_t *T, *U, *U2, *EDU;      /* EDU: the user acting now */
 static int mlog_idx = -1;
 static int selftest;
 static int Lmax = 5, Rmax = 3;
@@ -110,6 +110,7 @@ static void path_of (long idx, char *out) {
 
 /* ------------------------------------------------------------------ ops */
 enum { K_CALL, K_ED_START, K_ED_START_W, K_ED_W, K_ED_WAPP, K_ED_R, K_ED_E, K_ED_F_W, K_ED_F_X, K_ED_DEAD,
+       K_ED2_W, K_ED2_WAPP, K_ED2_R, K_ED2_E, K_ED2_F_W, K_ED2_F_X, K_ED2_START_W,
        K_INC_Q_SUB, K_INC_Q_ROOT, K_INC_A_SUB, K_INC_A_ROOT, K_INHERIT };
 enum { F_PLAIN, F_SAVE, F_DIR, F_TWO };       /* how an approved path may legitimately be transformed */
 typedef struct {
@@ -163,6 +164,14 @@ static const op_t OPS[] = {
   { "ed_e", "op_ed_nofile", K_ED_E, 1, F_PLAIN, "ed_start", "ed_start", 0, 0, 0 },
   { "ed_f_w", "op_ed_nofile", K_ED_F_W, 1, F_PLAIN, "ed_start", "ed_start", 0, 0, 0 },
   { "ed_f_x", "op_ed_nofile", K_ED_F_X, 1, F_PLAIN, "ed_start", "ed_start", 0, 0, 0 },
+  /* two users in ed at once: the first opens a session, then the second, then the first issues the file command */
+  { "ed2_w", "op_ed_nofile", K_ED2_W, 1, F_PLAIN, "ed_start", "ed_start", 0, 0, 0 },
+  { "ed2_W", "op_ed_nofile", K_ED2_WAPP, 1, F_PLAIN, "ed_start", "ed_start", 0, 0, 0 },
+  { "ed2_r", "op_ed_nofile", K_ED2_R, 1, F_PLAIN, "ed_start", "ed_start", 0, 0, 0 },
+  { "ed2_e", "op_ed_nofile", K_ED2_E, 1, F_PLAIN, "ed_start", "ed_start", 0, 0, 0 },
+  { "ed2_f_w", "op_ed_nofile", K_ED2_F_W, 1, F_PLAIN, "ed_start", "ed_start", 0, 0, 0 },
+  { "ed2_f_x", "op_ed_nofile", K_ED2_F_X, 1, F_PLAIN, "ed_start", "ed_start", 0, 0, 0 },
+  { "ed2_start_w", "op_ed", K_ED2_START_W, 1, F_PLAIN, "ed_start", "ed_start", 0, 0, 0 },
   { "ed_netdead_save", "op_ed", K_ED_DEAD, 1, F_PLAIN, "ed_start", "ed_start", "aa", 0, 1 },
   /* program name resolution: only confinement is stated for these */
   { "load_object", "op_load_object", K_CALL, 0, F_PLAIN, "", "", 0, 0, 1 },
@@ -249,6 +258,7 @@ static int word_in (const char *list, const char *w) {
 
 /* directory-listing efuns (documented in get_dir.md / the file_list comment): a trailing "/" or "/."
    names the directory itself; otherwise the last component is a pattern matched inside its directory */
+static int cur_rec_idx;         /* index in fs_log of the record being judged */
 static int dir_family_ok (const char *a, const char *x) {
   char d[FS_PATHMAX]; snprintf (d, sizeof d, "%s", a);
   if (!strcmp (x, a)) return 1;
@@ -260,6 +270,12 @@ static int dir_family_ok (const char *a, const char *x) {
   if (!strcmp (x, d)) return 1;
   size_t dl = strlen (d);
   if (!strncmp (x, d, dl) && x[dl] == '/' && !strchr (x + dl + 1, '/')) return 1;   /* an entry of the directory */
+  /* the containing directory is searched (wild-card match of the last component) only when the approved path itself
+     does not exist: there must be an earlier, failed stat() of it in this call */
+  int missing = 0;
+  for (int i = 0; i < cur_rec_idx && i < FS_LOGMAX; i++)
+    if (fs_log[i].has_path && fs_log[i].ret < 0 && !strcmp (fs_log[i].fn, "stat") && !strcmp (fs_log[i].path, d)) missing = 1;
+  if (!missing) return 0;
   char par[FS_PATHMAX];
   char *p = strrchr (d, '/');
   if (p) { *p = 0; snprintf (par, sizeof par, "%s", d); } else strcpy (par, ".");
@@ -272,14 +288,14 @@ static int dir_family_ok (const char *a, const char *x) {
 /* ------------------------------------------------------------------ driving one op */
 typedef struct { const op_t *op; const char *p; policy_t pol; const char *desc; int is_long; int fail_at, fail_errno, fail2_at; } job_t;
 
-static int ed_active (void) { return U && U->interactive && U->interactive->ed_buffer; }
+static int ed_active (void) { return EDU && EDU->interactive && EDU->interactive->ed_buffer; }
 static void ed_line_fn (void *arg) { ed_cmd ((char *) arg); }
 static void ed_line (const char *fmt, ...) {
   static char line[4096];
   va_list ap; va_start (ap, fmt); vsnprintf (line, 2040, fmt, ap); va_end (ap);
   if (!ed_active ()) return;
   object_t *save = command_giver;
-  command_giver = U; current_object = 0;
+  command_giver = EDU; current_object = 0;
   fs_active = 1;
   if (hx_guard (ed_line_fn, line)) vx_obs ("  ed: error %s", hx_last_error);
   fs_active = 0;
@@ -288,7 +304,7 @@ static void ed_line (const char *fmt, ...) {
 static void call_T (const char *fn, const char *a, const char *b) {
   copy_and_push_string (a);
   copy_and_push_string (b ? b : "");
-  command_giver = U;
+  command_giver = EDU;
   fs_active = 1;
   svalue_t *r = hx_apply (T, fn, 2);
   fs_active = 0;
@@ -324,6 +340,15 @@ static void drive (const job_t *j) {
   case K_ED_E: call_T ("op_ed_nofile", p, 0); ed_line ("e %s", p); ed_line ("Q"); break;
   case K_ED_F_W: call_T ("op_ed_nofile", p, 0); ed_line ("a"); ed_line ("x"); ed_line ("."); ed_line ("f %s", p); ed_line ("w"); ed_line ("Q"); break;
   case K_ED_F_X: call_T ("op_ed_nofile", p, 0); ed_line ("a"); ed_line ("x"); ed_line ("."); ed_line ("f %s", p); ed_line ("x"); ed_line ("Q"); break;
+#define TWO_SESSIONS(FIRST) do { EDU = U; FIRST; EDU = U2; call_T ("op_ed_nofile", "", 0); EDU = U; } while (0)
+#define END_SECOND do { EDU = U2; ed_line ("Q"); EDU = U; } while (0)
+  case K_ED2_W: TWO_SESSIONS (call_T ("op_ed_nofile", p, 0)); ed_line ("a"); ed_line ("x"); ed_line ("."); ed_line ("w %s", p); ed_line ("Q"); END_SECOND; break;
+  case K_ED2_WAPP: TWO_SESSIONS (call_T ("op_ed_nofile", p, 0)); ed_line ("a"); ed_line ("x"); ed_line ("."); ed_line ("W %s", p); ed_line ("Q"); END_SECOND; break;
+  case K_ED2_R: TWO_SESSIONS (call_T ("op_ed_nofile", p, 0)); ed_line ("r %s", p); ed_line ("Q"); END_SECOND; break;
+  case K_ED2_E: TWO_SESSIONS (call_T ("op_ed_nofile", p, 0)); ed_line ("e %s", p); ed_line ("Q"); END_SECOND; break;
+  case K_ED2_F_W: TWO_SESSIONS (call_T ("op_ed_nofile", p, 0)); ed_line ("a"); ed_line ("x"); ed_line ("."); ed_line ("f %s", p); ed_line ("w"); ed_line ("Q"); END_SECOND; break;
+  case K_ED2_F_X: TWO_SESSIONS (call_T ("op_ed_nofile", p, 0)); ed_line ("a"); ed_line ("x"); ed_line ("."); ed_line ("f %s", p); ed_line ("x"); ed_line ("Q"); END_SECOND; break;
+  case K_ED2_START_W: TWO_SESSIONS (call_T ("op_ed", p, 0)); ed_line ("w"); ed_line ("Q"); END_SECOND; break;
   case K_ED_DEAD:
     /* a session on the fixed file, then the user goes away: the buffer is saved under the name the master gives */
     call_T ("op_ed", op->partner, 0); ed_line ("a"); ed_line ("x"); ed_line (".");
@@ -426,7 +451,8 @@ static void check_mediated (const job_t *j, const fs_rec *r, const char *x, int 
     const char *fnname = e->u.arr->item[3].type == T_STRING ? e->u.arr->item[3].u.string : "";
     const char *caller = e->u.arr->item[2].type == T_STRING ? e->u.arr->item[2].u.string : "";
     int name_ok = word_in (w ? op->wr_names : op->rd_names, fnname);
-    int caller_ok = want_caller ? !strcmp (caller, want_caller) : (U && !strncmp (caller, "/user", 5));
+    char uname[80]; snprintf (uname, sizeof uname, "/%s", U ? U->name : "?");
+    int caller_ok = want_caller ? !strcmp (caller, want_caller) : !strcmp (caller, uname);       /* ed: the user who typed the command */
     if (nested > 0) {           /* the master's own access: approved by its own (inner) question, about exactly that path */
       if (strcmp (caller, "/master")) continue;
       if (!(!strcmp (x, a) || dir_family_ok (a, x))) continue;
@@ -491,6 +517,7 @@ static void oracle (const job_t *j) {
     if (i < 24) vx_obs ("  libc[%d] seq=%ld %s", i, r->seq, fs_describe (r, d, sizeof d));
     if (!r->has_path) continue;
     npath++;
+    cur_rec_idx = i;
     for (int w = 0; w < 2; w++) {
       if (w && !r->has_path2) break;
       const char *x = w ? r->path2 : r->path;
@@ -545,7 +572,9 @@ static void do_job (const job_t *j) {
   vx_obs ("%s", j->desc);
   drive (j);
   oracle (j);
-  if (ed_active ()) { ed_line ("."); ed_line ("Q"); }
+  EDU = U; if (ed_active ()) { ed_line ("."); ed_line ("Q"); }
+  EDU = U2; if (ed_active ()) { ed_line ("."); ed_line ("Q"); }
+  EDU = U;
   if (fs_mutated) dirty = 1;
 }
 
@@ -787,7 +816,19 @@ int main (int argc, char **argv) {
   }
   if (!U) { fprintf (stderr, "no user object\n"); return 2; }
   add_ref (U, "harness");
-  create_test_interactive (U);
+  {
+    error_context_t econ; save_context (&econ);
+    if (setjmp (econ.context)) { restore_context (&econ); pop_context (&econ); fprintf (stderr, "clone of /user failed\n"); return 2; }
+    current_object = master_ob;
+    U2 = clone_object ("/user", 0);
+    current_object = 0;
+    pop_context (&econ);
+  }
+  if (!U2) { fprintf (stderr, "no second user object\n"); return 2; }
+  add_ref (U2, "harness");
+  create_test_interactive (U2);
+  create_test_interactive (U);       /* last: all_users[0] is the first user, whose output goes to the console path */
+  EDU = U;
   {
     unsigned short t;
     mlog_idx = find_global_variable (master_ob->prog, "mlog", &t);
